@@ -5,6 +5,8 @@ package main
 import (
 	"encoding/hex"
 	"fmt"
+	"io"
+	"log/slog"
 	"net"
 	"net/http"
 	"net/http/httptest"
@@ -12,8 +14,11 @@ import (
 	"strconv"
 	"strings"
 	"sync"
+	"time"
 
 	"rivaas.dev/app"
+	"rivaas.dev/middleware/recovery"
+	"rivaas.dev/middleware/timeout"
 	"rivaas.dev/router"
 	"rivaas.dev/router/version"
 	"verif/harness/hx"
@@ -699,6 +704,24 @@ func siteRouter(c cfgT, site string, out *string, ok *bool) http.Handler {
 		}
 	case "group":
 		r.Group("/g", func(ctx *router.Context) { ctx.Next() }).GET("/ip", rec)
+	case "timeout": // ClientIP() called by the timeout middleware's handler, after the deadline has passed
+		r.Use(timeout.New(timeout.WithDuration(3*time.Millisecond), timeout.WithoutLogging(),
+			timeout.WithHandler(func(ctx *router.Context, _ time.Duration) { rec(ctx) })))
+		r.GET("/ip", func(ctx *router.Context) {
+			select {
+			case <-ctx.Request.Context().Done():
+			case <-time.After(200 * time.Millisecond):
+			}
+		})
+	case "recovered", "recoveryhandler": // ClientIP() called after a handler panic has been recovered
+		quiet := slog.New(slog.NewTextHandler(io.Discard, nil))
+		if site == "recovered" { // by an outer middleware on its way out (what an access log does)
+			r.Use(func(ctx *router.Context) { ctx.Next(); rec(ctx) })
+			r.Use(recovery.New(recovery.WithLogger(quiet)))
+		} else { // by the recovery middleware's own error handler
+			r.Use(recovery.New(recovery.WithLogger(quiet), recovery.WithHandler(func(ctx *router.Context, _ any) { rec(ctx) })))
+		}
+		r.GET("/ip", func(ctx *router.Context) { panic("handler failed") })
 	case "mount": // the serving router's configuration applies; the sub-router has none of its own
 		sub := router.MustNew()
 		sub.GET("/ip", rec)
@@ -906,7 +929,8 @@ func main() {
 					q.Hdr["X-Forwarded-For"] = "6.6.6.6"
 				}
 			}
-			site := hx.Pick(r, []string{"", "mw", "nf", "noroute", "noroute", "param", "cparam", "cstatic", "group", "mount", "version", "app", "app", "mountsub", "mountown"})
+			site := hx.Pick(r, []string{"", "mw", "nf", "noroute", "noroute", "param", "cparam", "cstatic", "group", "mount", "version", "app", "app", "mountsub", "mountown",
+				"timeout", "recovered", "recoveryhandler"})
 			if site == "mountsub" || site == "mountown" {
 				c = cfgT{} // no configuration on the serving router
 				if q.Hdr["X-Forwarded-For"] == "" {
